@@ -128,7 +128,7 @@ SPEC = {
     "trusted_base": [
         "mocknode (harness/src/mocknode): own CQL v4 frame codec, records every byte it wrote and every frame it read per connection",
         "runner harness/src/bin/c10.rs: maps mocknode's trace to the connection-model alphabet; completion bound 21.2 s (keepalive interval + timeout + 20 s margin), typical completion < 1.3 s; reports the largest scheduling stall of its own runtime per case",
-        "driver ocaml/c10/driver.ml: conversion of the case line into the extracted types, search over the delivered prefix after a TCP reset, the OCaml-only clauses of the predicate (bound, follow-up, probes, aux, panic), error-class table, 200 ms log-order tolerance of pool events, starvation not-run (stall >= 200 ms turns a pool-log-order diff, or a diff that disappears when the err:broken.KeepaliveTimeout results of a case with a keepalive in its trace are left out, into a counted not-run; no other diff, never a viol)",
+        "driver ocaml/c10/driver.ml: conversion of the case line into the extracted types, search over the delivered prefix after a TCP reset, the OCaml-only clauses of the predicate (bound, follow-up, probes, aux, panic), error-class table, 200 ms log-order tolerance of pool events, starvation not-run (stall >= 200 ms turns a pool-log-order diff, or a diff that disappears when the err:broken.KeepaliveTimeout results (and, for idempotent requests, err:pool results when the client itself closed a connection the model leaves open) are left out, into a counted not-run; no other diff, never a viol)",
     ],
     "assumptions": [
         "stream-id allocation is an oracle in Model/ConnFail.v (any free id); the bitmap allocator is C02's subject",
@@ -137,7 +137,7 @@ SPEC = {
         "the pool machine is tied through the connection ids observed at the mock for one-connection pools (shards = 0): the recorded a/g/b events, with PProcess inserted by pool_labels before the next replacement (never observed itself), must be a run; a non-run is a diff",
         "C10_root_cause is tied by a class-set check, not by a model run: a non-idempotent request the mock never saw (it is in no trace) must fail with a class in the union of the root causes of all connections that broke in the case (all delivered-prefix candidates), broken.ChannelError or pool; which connection it was queued on is not observed",
         "accept_obs (proved sound) is evaluated before ok except (a) in corr/short/garb cases where the mock mis-framed the stream and the body is justified by the model's frame-aligned reader, (b) in a case with an excused hang (mis-framing kind, connection alive to the end of the trace, model run ends open, frame-aligned (empty read buffer) with the request pending): there accept_obs is off for the whole case",
-        "a viol found by a burst case is the outcome of a race (about 2 % per burst case against the pre-fix router): a single replay usually does not reproduce it; C10_REPLAY_REPEAT=<k> re-executes the burst cases of a replay k times",
+        "a viol found by a burst case is the outcome of a race (about 2 % per burst case against the pre-fix router): a single replay usually does not reproduce it; VERIF_DEV=1 C10_REPLAY_REPEAT=<k> re-executes the burst cases of a replay k times",
     ],
 }
 
